@@ -6,6 +6,11 @@ Driver for C17.  Cases:
 
   db  n                                         → request  debruijn n
   bc  length n nb ban_1..ban_nb nf f_1..f_nf    → request  barcodes …   (filters by name, see `namedFilter`)
+  hist m k_1 <k_1 fields of a bc case> … k_m <…> → request  barcodeshist …  (m calls, in order, in ONE process)
+
+The harness calls the barcode function first and fetches the sequence of that order afterwards.
+The model's barcodes are computed with `barcodesOnFast`, the executable twin of the model's loop
+(Props/C17 `barcodesOnFast_eq`: equal on every input).
 
 `corr`  : the reply equals the model's (`deBruijn n`; `createBarcodesWith`), a panic equals a panic.
 `judge` : the property evaluated on the REAL output —
@@ -18,7 +23,7 @@ Driver for C17.  Cases:
 namespace PolyVerif.Driver.C17
 open PolyVerif PolyVerif.DeBruijn
 
-/-- number of 4ᵏ passes for the compiled checker: keep the masks at ≤ 4⁷ bits -/
+/-- number of 4ᵏ passes for the compiled checker: masks of 4⁷ bits for orders 8..10, 4⁸ bits for order 11 -/
 def passes (n : Nat) : Nat := min 3 (n - 7)
 
 /-- model sequences of the orders the barcode cases use, computed once per process -/
@@ -119,8 +124,9 @@ def oldShift (L : Nat) (p : Str → Bool) : Nat → Str → Nat → Nat → Nat 
       if e + 1 > L then none else oldShift L p fuel rest.tail (s + 1) (e + 1) (bn + 1)
     else some (rest, s, e, bn)
 
-def oldOne (db : Str) (L : Nat) (bans : List Str) (filters : List (Str → Bool)) (s e bn : Nat) : Option (Str × Nat × Nat × Nat) := do
-  let mut st := (db.drop s, s, e, bn)
+def oldOne (db : Str) (L : Nat) (bans : List Str) (filters : List (Str → Bool)) (cur : Str) (curPos : Nat)
+    (s e bn : Nat) : Option (Str × Nat × Nat × Nat) := do
+  let mut st := (suffixAt db cur curPos s, s, e, bn)
   for ban in bans do
     st ← oldShift L (fun w => contains w ban) (L + 1) st.1 st.2.1 st.2.2.1 st.2.2.2
     st ← oldShift L (fun w => contains w (Transform.revComp ban)) (L + 1) st.1 st.2.1 st.2.2.1 st.2.2.2
@@ -128,12 +134,13 @@ def oldOne (db : Str) (L : Nat) (bans : List Str) (filters : List (Str → Bool)
     st ← oldShift L (fun w => !f w) (L + 1) st.1 st.2.1 st.2.2.1 st.2.2.2
   return st
 
-def oldBarcodes (db : Str) (L : Nat) (len stride : Nat) (bans : List Str) (filters : List (Str → Bool)) : Nat → Nat → List Str
-  | 0, _ => []
-  | fuel + 1, bn =>
+def oldBarcodes (db : Str) (L : Nat) (len stride : Nat) (bans : List Str) (filters : List (Str → Bool)) :
+    Nat → Nat → Str → Nat → List Str
+  | 0, _, _, _ => []
+  | fuel + 1, bn, cur, curPos =>
     if bn * stride + len < L then
-      match oldOne db L bans filters (bn * stride) (bn * stride + len) (bn + 1) with
-      | some (rest, s, e, bn') => rest.take (e - s) :: oldBarcodes db L len stride bans filters fuel bn'
+      match oldOne db L bans filters cur curPos (bn * stride) (bn * stride + len) (bn + 1) with
+      | some (rest, s, e, bn') => rest.take (e - s) :: oldBarcodes db L len stride bans filters fuel bn' rest s
       | none => []
     else []
 
@@ -143,11 +150,91 @@ def render (f : List String) : List String :=
   match f with
   | "db" :: rest => "debruijn" :: rest
   | "bc" :: rest => "barcodes" :: rest
+  | "hist" :: rest => "barcodeshist" :: rest
   | _ => f
 
 def status (out : List String) : String := out.headD "missing"
 
 def joinStrs (bs : List Str) : String := ",".intercalate (bs.map String.ofList)
+
+def isACGT (c : Char) : Bool := c = 'A' || c = 'C' || c = 'G' || c = 'T'
+
+/-- the property's quantifier, exactly: orders 2..8, lengths n..60, 0..5 bans of length 2..8 over
+A,C,G,T (upper case), 0..3 filters.  Everything else is compared with the model but not judged. -/
+def inDomain (c : BcCase) : Bool :=
+  decide (2 ≤ c.n ∧ c.n ≤ 8 ∧ c.n ≤ c.length ∧ c.length ≤ 60 ∧ c.bans.length ≤ 5 ∧ c.filters.length ≤ 3) &&
+  c.bans.all (fun b => decide (2 ≤ b.length ∧ b.length ≤ 8) && b.toList.all isACGT)
+
+structure BcVerdict where
+  corr : Bool
+  inDom : Bool
+  pass : Bool
+  cls : String
+  detail : String
+
+/-- one barcode call: `reply` = the four reply fields (sequence, count, barcodes, entry-point flag), or `none`
+when the call did not return -/
+def judgeBc (c : BcCase) (reply : Option (List String)) (st : String) : BcVerdict :=
+  let bans := c.bans.map String.toList
+  let filters := c.filters.map namedFilter
+  let n := c.n
+  let mdb := modelDb n
+  let m := mdb.bind fun db => barcodesOnFast db c.length n bans filters
+  let mOut : Option (List String) := match mdb, m with
+    | .ok db, .ok bs => some [String.ofList db, toString bs.length, joinStrs bs, "="]
+    | _, _ => none
+  let mSt := match mdb, m with
+    | .ok _, .ok _ => "ok" | _, .fuel => "timeout" | _, _ => "panic"
+  let corr := st == mSt && reply == mOut
+  let (j, why) := match reply with
+    | some [dbS, cnt, joined, _] =>
+      let db := dbS.toList
+      let bs : List Str := if cnt = "0" then [] else (joined.splitOn ",").map String.toList
+      let dbOk := if mdb == Res.ok db ∧ n < dbOkTable.size then dbOkTable[n]! else Spec.checkWith (passes n) n db
+      let l0 := toString bs.length == cnt
+      let l1 := lawSubstrings n c.length db.toArray bs
+      let l3 := lawNoShared n bs
+      let l4 := lawBanFree bans bs
+      let l5 := lawFilters filters bs
+      (dbOk && l0 && l1 && l3 && l4 && l5,
+       (if dbOk then "" else "sequence-not-de-Bruijn ") ++ (if l0 then "" else "count ") ++
+       (if l1 then "" else "not-a-piece-of-requested-length ") ++ (if l3 then "" else "shared-n-mer ") ++
+       (if l4 then "" else "contains-ban-or-revcomp ") ++ (if l5 then "" else "filter-rejects "))
+    | _ => (false, "reply is " ++ st)
+  -- class: what the shifting logic did on this case (from the model)
+  let cls := match mdb, m with
+    | .ok db, .ok bs =>
+      if c.length < n then "bc/short" else
+      let stride := c.length + 1 - n
+      let plain := match barcodesOnFast db c.length n [] [] with | .ok p => p | _ => []
+      let old := oldBarcodes db db.length c.length stride bans filters (db.length + 1) 0 db 0
+      let big := if n ≥ 7 then (if stride ≤ 17 then "/order7-8-short" else "/order7-8") else ""
+      if bans.isEmpty ∧ filters.isEmpty then (if bs.length ≤ 1 then "triv:" else "") ++ "bc/plain" ++ big
+      else if bs == plain then "bc/no-shift" ++ big
+      else if bs != old then "bc/shift-readmit" ++ big   -- the pre-fix code would have answered differently
+      else if bs.isEmpty then "bc/all-rejected" ++ big
+      else "bc/shift" ++ big
+    | _, .fuel => "bc/diverge"
+    | _, _ => "bc/panic"
+  { corr := corr, inDom := inDomain c, pass := j, cls := cls,
+    detail := (if corr then "" else
+      "model: " ++ (match m with | .ok bs => toString bs.length ++ " " ++ (joinStrs (bs.take 6)) | .panic => "panic" | .fuel => "fuel") ++
+      " impl: " ++ (match reply with | some [_, cnt, joined, flag] => cnt ++ " " ++ String.ofList (joined.toList.take 200) ++ " " ++ flag | _ => st) ++ " ")
+      ++ (if j then "" else "law: " ++ why) }
+
+/-- split the fields of a `hist` case into its calls -/
+def splitHist : Nat → List String → Option (List (List String))
+  | 0, [] => some []
+  | 0, _ => none
+  | m + 1, k :: rest =>
+    let k := natOfStr k
+    if rest.length < k then none else
+    (splitHist m (rest.drop k)).map fun tl => rest.take k :: tl
+  | _ + 1, [] => none
+
+def chunks4 : List String → List (List String)
+  | a :: b :: c :: d :: rest => [a, b, c, d] :: chunks4 rest
+  | _ => []
 
 def judge (f out : List String) : Verdict :=
   match f with
@@ -171,56 +258,20 @@ def judge (f out : List String) : Verdict :=
     match parseBc rest with
     | none => { corr := false, judge := none, cls := "bad-case", detail := "bad case" }
     | some c =>
-      let bans := c.bans.map String.toList
-      let filters := c.filters.map namedFilter
-      let n := c.n
-      let mdb := modelDb n
-      let m := mdb.bind fun db => barcodesOn db c.length n bans filters
-      let mOut : List String := match mdb, m with
-        | .ok db, .ok bs => ["ok", String.ofList db, toString bs.length, joinStrs bs]
-        | _, .fuel => ["timeout"]
-        | _, _ => ["panic"]
-      let outN := if status out = "ok" then out else [status out]
-      -- domain of the theorems: length ≥ n ≥ 1 (the property names orders 2..8, lengths n..60,
-      -- bans of length 2..8; the laws are proved, and judged, on the larger domain); the
-      -- independent reverse complement is defined on the 15 IUPAC codes
-      let inDom := 1 ≤ n ∧ n ≤ c.length ∧ bans.all (·.all Spec.isIupac15)
-      let (j, why) := match out with
-        | ["ok", dbS, cnt, joined] =>
-          let db := dbS.toList
-          let bs : List Str := if cnt = "0" then [] else (joined.splitOn ",").map String.toList
-          let dbOk := if mdb == Res.ok db ∧ n < dbOkTable.size then dbOkTable[n]! else Spec.checkWith (passes n) n db
-          let l0 := toString bs.length == cnt
-          let l1 := lawSubstrings n c.length db.toArray bs
-          let l3 := lawNoShared n bs
-          let l4 := lawBanFree bans bs
-          let l5 := lawFilters filters bs
-          (dbOk && l0 && l1 && l3 && l4 && l5,
-           (if dbOk then "" else "sequence-not-de-Bruijn ") ++ (if l0 then "" else "count ") ++
-           (if l1 then "" else "not-a-piece-of-requested-length ") ++ (if l3 then "" else "shared-n-mer ") ++
-           (if l4 then "" else "contains-ban-or-revcomp ") ++ (if l5 then "" else "filter-rejects "))
-        | _ => (false, "reply is " ++ status out)
-      -- class: what the shifting logic did on this case (from the model)
-      let cls := match mdb, m with
-        | .ok db, .ok bs =>
-          let stride := c.length + 1 - n
-          let plain := if n ≥ 7 then [] else match barcodesOn db c.length n [] [] with | .ok p => p | _ => []
-          let old := if n ≥ 7 then [] else oldBarcodes db db.length c.length stride bans filters (db.length + 1) 0
-          if c.length < n then "bc/short"
-          else if n ≥ 7 then (if bans.isEmpty ∧ filters.isEmpty then "bc/plain" else "bc/order7-8")   -- (no re-runs on 16-65 k letters)
-          else if bans.isEmpty ∧ filters.isEmpty then (if bs.length ≤ 1 then "triv:" else "") ++ "bc/plain"
-          else if bs == plain then "bc/no-shift"
-          else if bs != old then "bc/shift-readmit"     -- the pre-fix code would have answered differently
-          else if bs.length < plain.length ∧ bs.isEmpty then "bc/all-rejected"
-          else "bc/shift"
-        | _, .fuel => "bc/diverge"
-        | _, _ => "bc/panic"
-      { corr := outN == mOut, judge := if inDom then some j else none,
-        cls := cls,
-        detail := (if outN == mOut then "" else
-          "model: " ++ (match m with | .ok bs => toString bs.length ++ " " ++ (joinStrs (bs.take 6)) | .panic => "panic" | .fuel => "fuel") ++
-          " impl: " ++ (match out with | ["ok", _, cnt, joined] => cnt ++ " " ++ String.ofList (joined.toList.take 200) | _ => status out) ++ " ")
-          ++ (if j then "" else "law: " ++ why) }
+      let reply := match out with | "ok" :: r => some r | _ => none
+      let v := judgeBc c reply (status out)
+      { corr := v.corr, judge := if v.inDom then some v.pass else none, cls := v.cls, detail := v.detail }
+  | "hist" :: ms :: rest =>
+    match (splitHist (natOfStr ms) rest).bind (fun cs => cs.mapM parseBc) with
+    | none => { corr := false, judge := none, cls := "bad-case", detail := "bad case" }
+    | some cs =>
+      let replies : List (Option (List String)) := match out with
+        | "ok" :: r => if r.length = 4 * cs.length then (chunks4 r).map some else cs.map fun _ => none
+        | _ => cs.map fun _ => none
+      let vs := (cs.zip replies).map fun (c, r) => judgeBc c r (if r.isSome then "ok" else status out)
+      { corr := vs.all (·.corr), judge := if vs.all (·.inDom) then some (vs.all (·.pass)) else none,
+        cls := "hist/" ++ "-".intercalate (cs.map fun c => toString c.n),
+        detail := " | ".intercalate ((vs.filter fun v => !v.corr || !v.pass).map (·.detail)) }
   | _ => { corr := false, judge := none, cls := "bad-case", detail := "bad case" }
 
 def driver : PropDriver := { render, judge }
